@@ -329,6 +329,12 @@ func (a *Analyzer) CheckRule(clause ast.Clause) error {
 		if len(groupByVars) != len(groupByStmt.Fn.Args) {
 			return fmt.Errorf("each argument of group_by must be a distinct variable, got: %v", groupByStmt)
 		}
+		// The group_by keys are read from the solutions of the rule body, before any let-statement runs.
+		for v := range groupByVars {
+			if transformVarDefs[v] {
+				return fmt.Errorf("in %v, variable %v of group_by is defined by a later statement of the transform", clause, v)
+			}
+		}
 		// All head variables have to either be part of group_by key or appear in a reducer application.
 		for v := range headVars {
 			if groupByVars[v] {
